@@ -67,6 +67,8 @@ LAYOUTS = [[1, 0], [0, 1], [1, 1], [0]]       # 1 = DDL, 0 = DML ; ("a", [...]) 
 A1 = [1, ("a", [0, 1]), 0]
 A2 = [("a", [1])]
 A3 = [0, ("a", [])]
+# ("t", [...]) = try: with autocommit_block(): ... except BaseException: pass ; "x" = a statement that always fails
+T1 = [0, ("t", [1, "x"]), 0]
 EXCS = ["exc", "kbd", "exit"]                # Exception subclass / KeyboardInterrupt / SystemExit
 
 
@@ -80,13 +82,14 @@ def _mk_rev(j, lay):
         return [d, "add", x]
     for it in lay:
         if isinstance(it, (tuple, list)):
-            up.append(["a", [st(d) for d in it[1]]])
+            up.append([it[0], [("x" if d == "x" else st(d)) for d in it[1]]])
         else:
             up.append(["s"] + st(it))
     dn = []
     for it in reversed(up):
-        if it[0] == "a":
-            dn.append(["a", [[d, "del", x] for d, _, x in reversed(it[1])]])
+        if it[0] in ("a", "t"):
+            inner = [[e[0], "del", e[2]] for e in reversed(it[1]) if e != "x"]
+            dn.append([it[0], inner + (["x"] if "x" in it[1] else [])])
         else:
             dn.append(["s", it[1], "del", it[3]])
     return {"up": up, "dn": dn}
@@ -102,7 +105,7 @@ def _slots(body):
     out = []
     for t, it in enumerate(body):
         out.append(("out", t))
-        if it[0] == "a":
+        if it[0] in ("a", "t"):
             out += [("in", t, q) for q in range(len(it[1]) + 1)]
     out.append(("out", len(body)))
     return out
@@ -207,7 +210,10 @@ def _rand_history(rnd):
         lay = []
         for _ in range(rnd.randint(0, 4)):
             if rnd.random() < 0.3:
-                lay.append(("a", [rnd.randint(0, 1) for _ in range(rnd.randint(0, 2))]))
+                if rnd.random() < 0.35:
+                    lay.append(("t", [rnd.randint(0, 1) for _ in range(rnd.randint(0, 2))] + (["x"] if rnd.random() < 0.7 else [])))
+                else:
+                    lay.append(("a", [rnd.randint(0, 1) for _ in range(rnd.randint(0, 2))]))
             else:
                 lay.append(rnd.randint(0, 1))
         lays.append(lay)
@@ -217,18 +223,19 @@ def _rand_history(rnd):
 def generate(tier, seed):
     rot = [seed]
     P = LAYOUTS
-    hs = [([P[o]], "n1", True) for o in range(4)]
-    hs += [([P[o], P[(o + 1) % 4]], "n2", False) for o in (0, 2)]
-    hs += [([A1], "n1-auto", True), ([A2], "n1-auto", True), ([A3], "n1-auto", True)]
+    hs = [([P[o]], "n1", o == 0) for o in range(4)]
+    hs += [([P[o], P[(o + 1) % 4]], "n2", False) for o in (0,)]
+    hs += [([A1], "n1-auto", True), ([A2], "n1-auto", False), ([A3], "n1-auto", False)]
     hs += [([A1, P[0]], "n2-auto", False), ([P[1], A1], "n2-auto", False)]
     hs += [([P[0], A1, P[3]], "n3-auto", False)]
+    hs += [([P[1], T1], "n2-try", False), ([P[0], T1, P[3]], "n3-try", False)]
     for lays, tag, allx in hs:
         yield from _cases_for(_mk_history(lays), tag, allx, rot)
     for lays, tag, allx in hs:
         yield from _template_cases(_mk_history(lays), tag + "-template", rot)
     for name in BRANCHED:
         yield from _branched_cases(name, rot)
-    for lays, tag in (([P[0], P[1]], "n2"), ([A1, P[0]], "n2-auto"), ([P[1], A1], "n2-auto")):
+    for lays, tag in (([P[0], P[1]], "n2"), ([P[1], A1], "n2-auto")):
         yield from _sql_cases(_mk_history(lays), tag + "-sql", rot)
     for lays, tag in (([P[0], P[1]], "n2"), ([P[2], A1], "n2-auto"), ([P[0], A1, P[3]], "n3-auto")):
         yield from _dup_cases(_mk_history(lays), tag + "-dup")
@@ -318,14 +325,21 @@ def _fn(name, direction, body):
     for it in body:
         lines.append("    _f(%r, %d)" % (direction, n))
         n += 1
-        if it[0] == "a":
-            lines.append("    with op.get_context().autocommit_block():")
+        if it[0] in ("a", "t"):
+            ind = "    " if it[0] == "a" else "        "
+            if it[0] == "t":
+                lines.append("    try:")
+            lines.append(ind + "with op.get_context().autocommit_block():")
             for st in it[1]:
-                lines.append("        _f(%r, %d)" % (direction, n))
+                lines.append(ind + "    _f(%r, %d)" % (direction, n))
                 n += 1
-                lines.append("        op.execute(%r)" % _sql(st))
-            lines.append("        _f(%r, %d)" % (direction, n))
+                # "x": a statement the database rejects (the table exists): the `index may already exist` idiom
+                lines.append(ind + "    op.execute(%r)" % ("CREATE TABLE log (v INTEGER)" if st == "x" else _sql(st)))
+            lines.append(ind + "    _f(%r, %d)" % (direction, n))
             n += 1
+            if it[0] == "t":
+                lines.append("    except BaseException:")
+                lines.append("        pass")
         else:
             lines.append("    op.execute(%r)" % _sql(it[1:]))
     lines.append("    _f(%r, %d)" % (direction, n))
@@ -365,15 +379,15 @@ def _coq_body(body, slot):
     for t, it in enumerate(body):
         if slot == ("out", t):
             items.append("BRaise")
-        if it[0] == "a":
+        if it[0] in ("a", "t"):
             inner = []
             for q, st in enumerate(it[1]):
                 if slot == ("in", t, q):
                     inner.append("ARaise")
-                inner.append("AStmt (%s)" % _stmt(st))
+                inner.append("ARaise" if st == "x" else "AStmt (%s)" % _stmt(st))
             if slot == ("in", t, len(it[1])):
                 inner.append("ARaise")
-            items.append("BAuto %s" % cf.lst(inner))
+            items.append("%s %s" % ("BAuto" if it[0] == "a" else "BTry", cf.lst(inner)))
         else:
             items.append("BStmt (%s)" % _stmt(it[1:]))
     if slot == ("out", len(body)):
@@ -534,7 +548,7 @@ def run_case(h):
     has_auto = False
     for j, isup in order:
         body = revs[j - 1]["up" if isup else "dn"]
-        has_auto = has_auto or any(it[0] == "a" for it in body)
+        has_auto = has_auto or any(it[0] in ("a", "t") for it in body)
         slot, cb = None, False
         if h["fail"] is not None and h["fail"][0] == j:
             if h["fail"][1] == "cb":
@@ -559,6 +573,25 @@ def run_case(h):
                                ("" if h.get("exc", "exc") == "exc" else "-BaseException"))
     return dict(cin=cin, cout=cout, out={"before": before, "after": after, "raised": raised},
                 nontrivial=ran, shape=shape)
+
+
+def canary(human, rec):
+    """deliberately corrupted observations the decider must reject: a version row too many (e.g. the failed revision kept),
+    a version row lost, the raised flag flipped, and - where the schema is claimed - a durable effect too many"""
+    out = rec.get("out") or {}
+    after = out.get("after")
+    if after is None:
+        return []
+    raised = out.get("raised") is not None
+    mk = lambda a, r: "(mkOut %s %s)" % (_db(a), cf.boolean(r))
+    rows = list(after["rows"])
+    extra = max(rows + [len(human["revs"])]) + 1
+    outs = [mk(dict(after, rows=rows + [extra]), raised), mk(after, not raised)]
+    if rows:
+        outs.append(mk(dict(after, rows=[r for r in rows if r != rows[0]]), raised))
+    if human.get("sql") or (human["kind"] == "txddl" and "autocommit" not in rec.get("shape", "")):
+        outs.append(mk(dict(after, effs=list(after["effs"]) + [999]), raised))
+    return outs
 
 
 def classify(human, out):
